@@ -110,6 +110,7 @@ func (v *VMap) validate(prefix string, tv reflect.Value) *VMap {
 					v.errBuf.WriteString(GetJoinValidErrStr("", v.getKey(prefix, key), "", ExplainEn, "it is", Required))
 				case Either, BothEq:
 					v.vc.initValid2FieldsMap(&name2Value{
+						scope:      prefix,
 						validName:  validName,
 						fieldName:  key,
 						cusMsg:     cusMsg,
